@@ -75,3 +75,23 @@ Lemma lhs_shape_refuted :
   | _ => False
   end.
 Proof. vm_compute. split; [reflexivity|discriminate]. Qed.
+
+(* Hypothesis A3 (loopvars_ok) of all_schedules cannot be dropped: a loop counter named like a
+   variable another statement assigns is set and then deleted by the looped statement, yet it is
+   in neither declared set, so `i <- 8; z <- 1 [i=0..2]` has no edge and the reversed schedule
+   keeps i = 8 while program order ends with i deleted.  (Open finding of C02:
+   loop_counter_shadows_variable; replayed on the real builder by corpus/C02/known_loop_counter_shadow.json.) *)
+Definition a3_prog : list bcall :=
+  [ BStmt (KAssign "i" None (EInt 8) []);
+    BStmt (KAssign "z" None (EInt 1) [("i", EInt 0, EInt 2)]) ].
+Definition a3_final (S : rstate) : list (option val) :=
+  match S with RRun s _ | RStop s _ _ => map s ["i"; "z"] | RCrash _ _ => [] end.
+Lemma all_schedules_without_A3_refuted :
+  match build true true isst "<exec>" a3_prog with
+  | BOk b =>
+      respects_b (b_stmts b) [1; 0]%nat = true /\
+      a3_final (run_ids F0 true (b_stmts b) [1; 0]%nat (RRun empty [])) = [Some (VInt 8); Some (VInt 1)] /\
+      a3_final (run_ids F0 true (b_stmts b) [0; 1]%nat (RRun empty [])) = [None; Some (VInt 1)]
+  | _ => False
+  end.
+Proof. vm_compute. auto. Qed.
